@@ -343,6 +343,16 @@ impl Family for SemFam {
             _ => None,
         }
     }
+    /// Dropping a queued (not granted) acquisition has no scheduling point at all: taking it out of
+    /// its slot and leaving the queue happen in one step. Dropping a *granted* one goes through
+    /// `release`, which has a scheduling point before it gives the permits back.
+    fn m_fused_continue(m: &SemM, t: usize, op: &SemOp) -> bool {
+        match op {
+            SemOp::Cancel => !m.granted.iter().any(|g| g.0 == t),
+            SemOp::CancelShared => !m.granted.iter().any(|g| g.0 == SHARED),
+            _ => false,
+        }
+    }
     fn m_forced_blocked(m: &SemM, t: usize) -> bool {
         m.forced.contains(&t)
     }
